@@ -232,9 +232,12 @@ fn c08(tier: &str) -> Vec<String> {
         }
     }
     // four producers (one preemption): more threads than the usual two or three
-    for cap in ["u", "2"] {
-        v.push(format!("queue:cap={}:prog=SJW:prod=E,E,E,E:P=1", cap));
-        v.push(format!("queue:cap={}:script=p:prog=SJ:prod=E,E,E,ED:P=1", cap));
+    v.push("queue:cap=u:prog=SJW:prod=E,E,E,E:P=1".to_string());
+    if th {
+        for cap in ["u", "2"] {
+            v.push(format!("queue:cap={}:script=p:prog=SJ:prod=E,E,E,ED:P=1", cap));
+        }
+        v.push("queue:cap=2:prog=SJW:prod=E,E,E,E:P=1".to_string());
     }
     // a long run of one producer (default-ish schedules only): accumulated state in the worker
     v.push("queue:cap=u:script=opoe:prog=".to_string() + &"E0".repeat(60) + "W:P=0");
